@@ -209,6 +209,10 @@ def run(ctx):
     run_traces(ctx, "c14_ebadf", [[ctx.seed * 10 + i, 24 if ctx.thorough else 8] for i in range(3 if ctx.thorough else 2)], None, None, "L-api EBADF fault sequence", "ebadf", timeout=600)
     # known finding F31: a zero-length operation overtakes an earlier operation of its direction that is still waiting
     forced(ctx, "f31_zero_length_order", "F31", "io:order:zero-length-overtakes:forced-F31", "F31")
+    # known finding F51: on a channel with a strict interval the handler of a later read can see done before the handler of an earlier one
+    forced(ctx, "f51_interval_order", "F51", "io:order:interval-swaps-done:forced-F51", "F51")
+    # known finding F52: a stop queued behind a pending dispatch_io_barrier never cancels the read the barrier waits for
+    forced(ctx, "f52_stop_behind_barrier", "F52", "io:stop:behind-pending-barrier:forced-F52", "F52")
     # cleanup orchestration: the recorded history of the descriptor entry's close queue (suspensions / resumptions, handler calls,
     # cleanup handlers) replayed through IoHold.astep; the cleanup clause evaluated on the same runs
     run_traces(ctx, "tr_iohold", [[ctx.seed * 10 + i, 150 if ctx.thorough else 30] for i in range(4 if ctx.thorough else 2)], "iohold",
